@@ -78,12 +78,10 @@ Proof.
   destruct (find_array_prefix (key_of p) (st_arrays s) (key_of p :: st_seen s)) as [[f arrays2] seen2] eqn:F.
   assert (Hs : mem_key (key_of p) seen2 = true).
   { eapply find_array_prefix_seen; eauto. rewrite mem_key_cons, rkey_eqb_refl. reflexivity. }
-  destruct f as [|i a|].
+  destruct f as [|i a].
   - injection H as <-. exact Hs.
   - destruct (rkey_eqb (oa_key a) (key_of p)); [discriminate|].
-    destruct (Nat.leb (length p) (oa_level a)); [discriminate|].
     injection H as <-. exact Hs.
-  - discriminate.
 Qed.
 
 (* a table header that has been accepted is rejected as a duplicate when it comes again,
@@ -306,7 +304,8 @@ Proof.
   - rewrite repeat_snoc, run_app, IH. cbn [run].
     unfold array_state. cbn [step st_seen st_arrays st_out mem_key existsb].
     unfold find_array_prefix. cbn [find_array_idx oa_key]. rewrite rkey_eqb_refl.
-    cbn [filter oa_key]. rewrite proper_prefix_irrefl. cbn [negb nth_error oa_level oa_list].
+    cbn [filter oa_key]. rewrite proper_prefix_irrefl. cbn [negb find_array_idx oa_key].
+    rewrite rkey_eqb_refl. cbn [nth_error oa_level oa_list].
     rewrite Nat.eqb_refl.
     unfold width. rewrite node_at_chain by auto. rewrite repeat_length.
     rewrite append_elem_chain by auto. rewrite <- repeat_snoc.
@@ -329,22 +328,94 @@ Proof.
 Qed.
 
 (* ------------------------------------------------------------------ *)
-(* the implementation can panic, and can put data into the wrong table *)
+(* findArrayPrefix returns an array at or above the key                 *)
+
+Lemma find_array_idx_spec : forall k l i j,
+  find_array_idx k l i = Some j -> exists a, nth_error l (j - i) = Some a /\ rkey_eqb (oa_key a) k = true /\ (i <= j)%nat.
+Proof.
+  induction l as [|a l IH]; intros i j H; [discriminate|].
+  cbn [find_array_idx] in H. destruct (rkey_eqb (oa_key a) k) eqn:E.
+  - injection H as <-. exists a. rewrite Nat.sub_diag. auto.
+  - destruct (IH _ _ H) as [b [Hn [Hb Hle]]]. exists b.
+    replace (j - i)%nat with (S (j - S i)) by lia. cbn. auto with arith.
+Qed.
+
+Lemma longest_prefix_spec : forall k l i best r,
+  (forall j b, best = Some (j, b) -> proper_prefix (oa_key b) k = true) ->
+  longest_prefix k l i best = Some r -> proper_prefix (oa_key (snd r)) k = true.
+Proof.
+  induction l as [|a l IH]; intros i best r Hb H.
+  - cbn in H. destruct r as [j b]. eapply Hb. exact H.
+  - cbn [longest_prefix] in H.
+    destruct (proper_prefix (oa_key a) k && Nat.ltb match best with Some (_, b) => oa_level b | None => 0%nat end (oa_level a)) eqn:E.
+    + eapply IH; [|exact H]. intros j b Hjb. injection Hjb as _ <-.
+      apply andb_true_iff in E. tauto.
+    + eapply IH; eauto.
+Qed.
+
+(* the array that findArrayPrefix hands out has the key itself or a proper prefix of it
+   (before the fix of the slice aliasing it could be an unrelated array or a zeroed slot) *)
+Theorem find_array_prefix_sound : forall k arrays seen i a arrays2 seen2,
+  find_array_prefix k arrays seen = (FSome i a, arrays2, seen2) ->
+  nth_error arrays2 i = Some a /\
+  (rkey_eqb (oa_key a) k = true \/ proper_prefix (oa_key a) k = true).
+Proof.
+  intros k arrays seen i a arrays2 seen2 H. unfold find_array_prefix in H.
+  destruct (find_array_idx k arrays 0).
+  - set (f := filter (fun b => negb (proper_prefix k (oa_key b))) arrays) in *.
+    destruct (find_array_idx k f 0) as [j|] eqn:E; [|discriminate].
+    destruct (nth_error f j) as [b|] eqn:En; [|discriminate].
+    injection H as <- <- <- _.
+    destruct (find_array_idx_spec _ _ _ _ E) as [c [Hc [Hk _]]]. rewrite Nat.sub_0_r in Hc.
+    rewrite En in Hc. injection Hc as <-. auto.
+  - destruct (longest_prefix k arrays 0 None) as [[j b]|] eqn:E; [|discriminate].
+    injection H as <- <- <- _. split.
+    + (* the index: by induction over the search *)
+      clear - E.
+      assert (G : forall l i best jj bb,
+                 (forall j0 b0, best = Some (j0, b0) -> (j0 < i)%nat) ->
+                 longest_prefix k l i best = Some (jj, bb) ->
+                 best = Some (jj, bb) \/ ((i <= jj)%nat /\ nth_error l (jj - i) = Some bb)).
+      { induction l as [|a l IH]; intros i best jj bb Hb H.
+        - cbn in H. left. exact H.
+        - cbn [longest_prefix] in H.
+          destruct (proper_prefix (oa_key a) k && Nat.ltb match best with Some (_, b0) => oa_level b0 | None => 0%nat end (oa_level a)).
+          + destruct (IH (S i) (Some (i, a)) jj bb) as [Hx|[Hle Hn]].
+            * intros j0 b0 Hj. injection Hj as <- <-. lia.
+            * exact H.
+            * injection Hx as <- <-. right. split; [lia|]. rewrite Nat.sub_diag. reflexivity.
+            * right. split; [lia|]. replace (jj - i)%nat with (S (jj - S i)) by lia. exact Hn.
+          + destruct (IH (S i) best jj bb) as [Hx|[Hle Hn]].
+            * intros j0 b0 Hj. specialize (Hb _ _ Hj). lia.
+            * exact H.
+            * left. exact Hx.
+            * right. split; [lia|]. replace (jj - i)%nat with (S (jj - S i)) by lia. exact Hn. }
+      destruct (G arrays 0%nat None j b) as [Hx|[_ Hn]]; [intros; discriminate|exact E|discriminate|].
+      rewrite Nat.sub_0_r in Hn. exact Hn.
+    + right. apply (longest_prefix_spec k arrays 0%nat None (j, b)); [intros; discriminate|exact E].
+Qed.
+
+(* ------------------------------------------------------------------ *)
+(* table arrays declared after one of their sub-arrays (invalid TOML the
+   decoder does not detect itself; regression cases of C12-toml-decoder-panic) *)
 
 Definition ka : str := [97%N]. Definition kb : str := [98%N]. Definition kc : str := [99%N].
 Definition kx : str := [120%N].
 
-(* [[a.b]] [[a]] [[a]] : nil pointer dereference (the slot of the matched array has been zeroed) *)
-Theorem decoder_panics :
-  decode [EArrayTable [ka; kb]; EArrayTable [ka]; EArrayTable [ka]] = Err EPanic.
-Proof. vm_compute. reflexivity. Qed.
+(* [[a.b]] [[a]] [[a]] : a gets its second element; CUE then sees a table and a list for a *)
+Theorem sub_array_first_appends :
+  decode [EArrayTable [ka; kb]; EArrayTable [ka]; EArrayTable [ka]] =
+  Ok (OStruct [(ka, OStruct [(kb, OList [OStruct []])]); (ka, OList [OStruct []; OStruct []])]) /\
+  eval 8 (OStruct [(ka, OStruct [(kb, OList [OStruct []])]); (ka, OList [OStruct []; OStruct []])]) = None.
+Proof. split; vm_compute; reflexivity. Qed.
 
-(* [[a.b]] [[a]] [[c]] [[a]] x = 1 : the second [[a]] appends to the list of c, and x lands there *)
-Theorem decoder_misplaces :
+(* [[a.b]] [[a]] [[c]] [[a]] x = 1 : the second [[a]] appends to a, and x lands there *)
+Theorem sub_array_first_keeps_arrays_apart :
   decode [EArrayTable [ka; kb]; EArrayTable [ka]; EArrayTable [kc]; EArrayTable [ka];
           EKeyValue [kx] (VLeaf 1%N)] =
-  Ok (OStruct [(ka, OStruct [(kb, OList [OStruct []])]); (ka, OList [OStruct []]);
-               (kc, OList [OStruct []; OStruct [(kx, OLeaf 1%N)]])]).
+  Ok (OStruct [(ka, OStruct [(kb, OList [OStruct []])]);
+               (ka, OList [OStruct []; OStruct [(kx, OLeaf 1%N)]]);
+               (kc, OList [OStruct []])]).
 Proof. vm_compute. reflexivity. Qed.
 
 (* ------------------------------------------------------------------ *)
